@@ -49,12 +49,18 @@ Definition check_codes (c : case) : list Z :=
   (* pruning: the model's queue reaches the implementation's cut_edges *)
   mk 5 (match cut_edges_of edges (c_nv c) (c_singus c) (c_evisited c) with
         | Some k => zl_eqb k (c_cut c) | None => false end) ++
-  (* rebuild: faces, vertex positions, ref_vertex *)
-  mk 6 (zll_eqb (out_faces r) (c_out_faces c)) ++
+  (* rebuild: faces, vertex positions, ref_vertex - UP TO THE NUMBERING of the output vertices, which the property
+     leaves free: sigma = {(model index, implementation index)} read off corner by corner must be a bijection *)
+  mk 6 (list_eqb Z.eqb (map zlen (out_faces r)) (map zlen (c_out_faces c))
+        && (let sg := combine (concat (out_faces r)) (concat (c_out_faces c)) in
+            forallb (fun p => forallb (fun q => Bool.eqb (fst p =? fst q) (snd p =? snd q)) sg) sg)) ++
   mk 7 ((out_n r =? zlen (c_out_verts c))
-        && list_eqb pos3_eqb (map (fun v => znth (c_coords c) v (0, 0, 0)) (out_src r)) (c_out_verts c)) ++
-  mk 8 (list_eqb pair_eqb (flat_map (fun k => match ref_vertex r k with Some v => [(k, v)] | None => [] end)
-                                    (zrange (out_n r))) (c_ref c)
+        && forallb (fun p => pos3_eqb (znth (c_coords c) (znth (out_src r) (fst p) 0) (0, 0, 0))
+                                      (znth (c_out_verts c) (snd p) (0, 0, 0)))
+                   (combine (concat (out_faces r)) (concat (c_out_faces c)))) ++
+  mk 8 (forallb (fun p => match ref_vertex r (fst p), assocZ (snd p) (c_ref c) with
+                          | Some v, Some w => v =? w | _, _ => false end)
+                (combine (concat (out_faces r)) (concat (c_out_faces c)))
         && forallb (fun kv => match ref_vertex r (fst kv) with Some v => v =? snd kv | None => false end) (out_ref r)) ++
   (* the guarded / partial parts of C16, checked on the output *)
   (if sphere_exception c then mk 9 (match c_cut c with [] => true | _ => false end) ++ mk 10 (out_n r =? c_nv c)
